@@ -33,6 +33,9 @@ type c19Case struct {
 	Iters    int                 `json:"iters"`
 	Yield    []bool              `json:"yield,omitempty"` // per goroutine: call runtime.Gosched between iterations
 	Procs    int                 `json:"procs,omitempty"`
+	// Nondet: the expression calls Rnd / Random / Now / Ticks: values are not compared, the evaluations only have to
+	// return normally and race-free
+	Nondet bool `json:"nondet,omitempty"`
 	// FuncLists > 0: evaluations cycle through that many user function lists (Fx, Gx defined differently in
 	// each); a "collection" is then the pair (variable collection, function list)
 	FuncLists int `json:"funcLists,omitempty"`
@@ -110,9 +113,9 @@ func (s *c19Subject) snapshot() string {
 		for _, v := range s.calc.DefaultVariables().GetAll() {
 			dv = append(dv, v.Name()+"="+fromVariant(v.Value()).String())
 		}
-		return exprTokensRepr(s.calc.ResultTokens()) + " | initial " + exprTokensRepr(s.calc.InitialTokens()) + " | functions " + strings.Join(names, ",") + " | defaults " + strings.Join(dv, ",") + " | empty " + fromVariant(variants.Empty).String()
+		return exprTokensRepr(s.calc.ResultTokens()) + " | initial " + exprTokensRepr(s.calc.InitialTokens()) + " | functions " + strings.Join(names, ",") + " | defaults " + strings.Join(dv, ",") + " | empty " + fromVariant(variants.Empty).String() + " | sentinel " + sentinelError.Message
 	}
-	return mustacheTokensRepr(s.tmpl.ResultTokens()) + " | defaults " + sortedMap(s.tmpl.DefaultVariables())
+	return mustacheTokensRepr(s.tmpl.ResultTokens()) + " | defaults " + sortedMap(s.tmpl.DefaultVariables()) + " | sentinel " + sentinelError.Message
 }
 
 // checkC19 runs the sequential phase (and the concurrent phase when Routines > 0). In a -race build a data
@@ -127,6 +130,33 @@ func checkC19(c c19Case) *evid.Fail {
 		}
 		before := s.snapshot()
 		first := make([]string, s.k())
+		if c.Nondet {
+			var wg sync.WaitGroup
+			var mu sync.Mutex
+			var bad string
+			for g := 0; g < c.Routines; g++ {
+				wg.Add(1)
+				go func(g int) {
+					defer wg.Done()
+					for it := 0; it < c.Iters; it++ {
+						vc := makeVars(c.Vars[g%len(c.Vars)])
+						v, err := s.calc.EvaluateUsingVariables(vc)
+						if (v == nil) == (err == nil) {
+							mu.Lock()
+							bad = fmt.Sprintf("goroutine %d: result %v, error %v", g, v, err)
+							mu.Unlock()
+						}
+					}
+				}(g)
+			}
+			wg.Wait()
+			if bad != "" {
+				res = evid.F("concurrent:neither-or-both", "%q: %s", c.Text, bad)
+			} else if after := s.snapshot(); after != before {
+				res = evid.F("impure:program-modified-concurrently:expression", "%q: program changed", c.Text)
+			}
+			return
+		}
 		for i, k := range c.Order {
 			k = k % s.k()
 			got := s.eval(k)
@@ -250,6 +280,10 @@ func genC19(rt *rapid.T, concurrent bool) c19Case {
 		if rapid.IntRange(0, 3).Draw(rt, "userfuncs") == 0 {
 			c.FuncLists = rapid.IntRange(2, 3).Draw(rt, "nlists")
 			tree = &node{Op: "call", Tok: "Array", Kids: []*node{{Op: "call", Tok: "Fx"}, {Op: "call", Tok: "Gx", Kids: []*node{{Op: "var", Tok: "a"}}}, tree}}
+			if rapid.IntRange(0, 2).Draw(rt, "failing") == 0 {
+				// a user function that fails with a shared error object, somewhere behind other work
+				tree = &node{Op: "+", Kids: []*node{tree, {Op: "call", Tok: "Ex"}}}
+			}
 		}
 		c.Text = spellRandom(rt, printTokens(tree, rapid.IntRange(0, 2).Draw(rt, "style"), func() bool { return rapid.IntRange(0, 5).Draw(rt, "xp") == 0 }))
 		for i := 0; i < k; i++ {
@@ -281,6 +315,10 @@ func genC19(rt *rapid.T, concurrent bool) c19Case {
 	}
 	for i := 0; i < n; i++ {
 		c.Order = append(c.Order, rapid.IntRange(0, kk-1).Draw(rt, "which"))
+	}
+	if concurrent && c.Kind == "expression" && c.FuncLists == 0 && rapid.IntRange(0, 3).Draw(rt, "nondet") == 0 {
+		c.Nondet = true
+		c.Text = rapid.SampledFrom([]string{"Rnd() + ", "If(Random() < 0.5, 1, 2) + ", "Ticks() * 0 + ", "If(Now() = Now(), 1, 2) + ", "Array(Rnd(), Random(), Ticks())[0] + "}).Draw(rt, "nd") + "Array(" + c.Text + ")[0]"
 	}
 	if concurrent {
 		c.Routines = rapid.SampledFrom([]int{2, 3, 4, 8, 16}).Draw(rt, "routines")
